@@ -807,3 +807,20 @@ def progress_run(arg: dict) -> dict:
         o = assemble({"src": text})
         obs["outcome"] = "ok" if o["ok"] else "error"
     return obs
+
+
+# ------------------------------------------------------------------------------------------
+# error locations (C17)
+# ------------------------------------------------------------------------------------------
+def errloc_case(arg: dict) -> dict:
+    import re
+    nl = "\n" if arg["final_newline"] else ""
+    main = "\n".join(arg["main"]) + (nl if not arg["part"] else "\n")
+    files = {}
+    if arg["part"]:
+        files["part.s"] = {"text": "\n".join(arg["part"]) + nl}
+    o = assemble({"src": main, "files": files, "filename": "main.s"})
+    err = o["err"] or ""
+    locs = [{"file": m.group(1), "line": int(m.group(2)), "col": int(m.group(3)) if m.group(3) is not None else -999}
+            for m in re.finditer(r"([A-Za-z0-9_./-]+\.s):(\d+)(?::(-?\d+))?", err)]
+    return {"ok": o["ok"], "locs": locs, "has_text": arg["text"].strip() in err, "err": err}
